@@ -4,4 +4,9 @@ go 1.23
 
 require github.com/biogo/biogo v0.0.0
 
+require (
+	github.com/biogo/graph v0.0.0-20150317020928-057c1989faed // indirect
+	github.com/biogo/store v0.0.0-20200104231603-2c6ad937eb83 // indirect
+)
+
 replace github.com/biogo/biogo => /repo
